@@ -48,7 +48,10 @@ def main():
         out = []
         for sid in buckets[i]:
             prop = sid.split("_")[0]
-            src = copies[i] / "seeded" / sid
+            src = copies[i] / "build" / "seedsrc" / sid      # outside seeded/: seed_verify copies the files back into seeded/<sid>
+            shutil.rmtree(src, ignore_errors=True)
+            src.parent.mkdir(parents=True, exist_ok=True)
+            shutil.copytree(copies[i] / "seeded" / sid, src)
             p = sh(f"tools/seed_verify.py {src} {prop} {sid}", cwd=copies[i])
             try:
                 j = json.loads(p.stdout[p.stdout.index("{"):])
